@@ -50,9 +50,10 @@ def _case(args):
             for t in stream:
                 yield Token(t.type, t.value, t.start_pos + 100, t.line + 10, t.column + 7, t.end_line + 10, t.end_column + 7, t.end_pos + 100)
     shifted = rng.random() < 0.3
+    spaced = (not shifted) and rng.random() < 0.4      # tokens separated by ignored blanks and (several) newlines: error coordinates are checked against the text
     try:
         with guarded(15):
-            p = Lark(g, parser='lalr', lexer=rng.choice(['basic', 'contextual']), postlex=_Shift() if shifted else None)
+            p = Lark(g + ('%ignore /[ \\n]+/\n' if spaced else ''), parser='lalr', lexer=rng.choice(['basic', 'contextual']), postlex=_Shift() if shifted else None)
         rec['lark_error'] = None
     except GrammarError as e:
         rec['lark_error'] = str(e)[:200]
@@ -70,7 +71,13 @@ def _case(args):
         strings.append(tuple(s))
     runs = []
     for s in dict.fromkeys(strings):
-        text = ''.join(LETTER[t] for t in s)
+        if spaced:
+            parts, offs = [rng.choice(['', ' ', '\n\n', ' \n'])], []
+            for t in s:
+                offs.append(sum(len(x) for x in parts)); parts.append(LETTER[t]); parts.append(rng.choice(['', ' ', '\n', '\n\n', ' \n \n ', '  ']))
+            text = ''.join(parts)
+        else:
+            text = ''.join(LETTER[t] for t in s); offs = list(range(len(s)))
         r = {'toks': [tid[t] for t in s], 'text': text}
         try:
             with guarded(1.5):
@@ -78,7 +85,13 @@ def _case(args):
                     p.parse(text); r['ok'] = True
                 except UnexpectedToken as e:
                     r['ok'] = False; r['err'] = 'UnexpectedToken'; r['tok'] = e.token.type
-                    r['errpos'] = (e.token.start_pos - (100 if shifted and e.token.start_pos >= 100 else 0)) if e.token.type != '$END' else len(text)   # (the contextual lexer raises before the post-lexer)
+                    sp_ = (e.token.start_pos - (100 if shifted and e.token.start_pos >= 100 else 0)) if e.token.type != '$END' else None   # (the contextual lexer raises before the post-lexer)
+                    r['errpos'] = len(s) if sp_ is None else (offs.index(sp_) if sp_ in offs else -1 - sp_)      # as a token index
+                    if sp_ is not None and not shifted:
+                        r['coords'] = [[e.line, e.column], [text.count('\n', 0, sp_) + 1, sp_ - (text.rfind('\n', 0, sp_) + 1) + 1]]
+                    elif sp_ is None and not shifted and s:
+                        lp = offs[-1]
+                        r['coords'] = [[e.token.line, e.token.column], [text.count('\n', 0, lp) + 1, lp - (text.rfind('\n', 0, lp) + 1) + 1]]
                     if e.token.type == '$END':
                         co = lambda t: [t.start_pos, t.line, t.column, t.end_line, t.end_column, t.end_pos]
                         fed = list(p.lex(text))
@@ -251,9 +264,12 @@ def run(ctx, res, focus='c02'):
                     res.violation('accepts() after %d tokens differs from trial feeding on the model driver' % k, {'grammar': g, 'text': r['text'], 'code': a['accepts'], 'model': b['accepts'], 'terms': ex['terms']}); break
             # C08 (LALR): error at the first token the driver cannot consume; accepts subset of expected
             if not ok and r.get('err') == 'UnexpectedToken':
-                want = len(r['text']) if m['errorAt'] >= len(r['toks']) else m['errorAt']
+                want = len(r['toks']) if m['errorAt'] >= len(r['toks']) else m['errorAt']
                 if r['errpos'] != want:
                     res.violation('UnexpectedToken is not raised at the first token that cannot be consumed', {'grammar': g, 'text': r['text'], 'code_pos': r['errpos'], 'model_pos': want})
+                elif 'coords' in r and r['coords'][0] != r['coords'][1]:
+                    res.violation('the reported line/column are not the coordinates of the offending token (of the last token, for an unexpected $END) in the text',
+                                  {'grammar': g, 'text': r['text'], 'reported [line, column]': r['coords'][0], 'coordinates in the text': r['coords'][1], 'token': r.get('tok')})
                 elif 'end_tok' in r and r['end_tok'] != r['last_fed']:
                     res.violation('the unexpected $END does not carry the coordinates of the last token fed to the parser',
                                   {'grammar': g, 'text': r['text'], '$END [start_pos,line,column,end_line,end_column,end_pos]': r['end_tok'], 'last_token_fed': r['last_fed'],
